@@ -220,6 +220,8 @@ def surgery(rec):
         for ns in (1, 2, 3):
             names = ['drug_amount', 's_b', 's_c'][:ns]
             yield 'generated%d' % ns, (lambda names=names: chi_sym.PKPDModel(mech.generated_model(names, ['k_a', 'k_b'], comp='central'))), 'central', 'drug_amount'
+        # a model whose dosed compartment is itself called 'dose' (with a variable 'drug_amount'): the depot gets another component name
+        yield 'generated2[compartment named dose]', (lambda: chi_sym.PKPDModel(mech.generated_model(['drug_amount', 's_b'], ['k_a', 'k_b'], comp='dose'))), 'dose', 'drug_amount'
 
     def go():
         msgs = []
@@ -241,14 +243,19 @@ def surgery(rec):
                     want[q_amt] = before[q_amt] + rate
                     allowed_new = {pace_vars[0].qname()}
                 else:
-                    depot = sp.Symbol('dose__drug_amount', real=True)
-                    ka = sp.Symbol('dose__absorption_rate', real=True)
+                    # the depot is the one state the call added (its component is 'dose' unless the model already has one of that name)
+                    new_states = [v.qname() for v in m._model.states() if v.qname() not in before]
+                    if len(new_states) != 1:
+                        return ('refuted', 'structural', '%s: indirect administration added the states %s (expected exactly one depot)' % (label, new_states))
+                    q_dep = new_states[0]
+                    dep_comp = q_dep.split('.')[0]
+                    q_ka = dep_comp + '.absorption_rate'
+                    depot = sp.Symbol(q_dep.replace('.', '__'), real=True)
+                    ka = sp.Symbol(q_ka.replace('.', '__'), real=True)
                     want = dict(before)
                     want[q_amt] = before[q_amt] + ka * depot
-                    want['dose.drug_amount'] = -ka * depot + rate
-                    allowed_new = {pace_vars[0].qname(), 'dose.drug_amount', 'dose.absorption_rate'}
-                    if not m._model.get('dose.drug_amount').is_state():
-                        return ('refuted', 'structural', '%s: the depot is not a state' % label)
+                    want[q_dep] = -ka * depot + rate
+                    allowed_new = {pace_vars[0].qname(), q_dep, q_ka}
                 if not new_vars <= allowed_new | {pace_vars[0].qname()}:
                     return ('refuted', 'structural', '%s %s: unexpected new variables %s' % (label, direct, new_vars - allowed_new))
                 for k, e in want.items():
@@ -259,7 +266,7 @@ def surgery(rec):
                     pass
                 # the dose rate enters the *dosed* state only
                 for k, e in after.items():
-                    if rate in e.free_symbols and k not in ((q_amt,) if direct else ('dose.drug_amount',)) and k != pace_vars[0].qname():
+                    if rate in e.free_symbols and k not in ((q_amt,) if direct else (q_dep,)) and k != pace_vars[0].qname():
                         return ('refuted', 'sympy identity', '%s: the dose rate also enters %s' % (label, k))
                 msgs.append('%s/%s' % (label, 'direct' if direct else 'indirect'))
                 # choosing another dosed variable of the same compartment afterwards (same route): the model is the one a fresh model gets
